@@ -301,6 +301,19 @@ func TestVerifC20Child(t *testing.T) {
 					break
 				}
 			}
+		case "arm_open":
+			// strace delays the return of every openat(2) of a thread from its 300th on: stay on this
+			// thread and burn failing opens until one of them is slow
+			runtime.LockOSThread()
+			err = fmt.Errorf("open delay never began")
+			for n := 0; n < 2000; n++ {
+				t0 := time.Now()
+				_, _ = syscall.Open("/c20-nonexistent", syscall.O_RDONLY, 0)
+				if time.Since(t0) > 120*time.Millisecond {
+					err = nil
+					break
+				}
+			}
 		case "xfsz_default":
 			// restore the kernel's default action for SIGXFSZ (terminate): a write beyond RLIMIT_FSIZE then
 			// kills the process inside the store's write loop, after exactly the permitted bytes have landed
@@ -385,6 +398,7 @@ type c20Intervene struct {
 	WaitTmpSize int64  `json:"wait_tmp_size"` // wait until a temporary of this size exists in Dir (-1: any temporary)
 	Action      string `json:"action"`        // rmdir | rmdir_mkdir
 	Dir         string `json:"dir"`
+	DelayMs     int    `json:"delay_ms"` // wait this long after the temporary appeared
 }
 
 type c20Kill struct {
@@ -539,7 +553,7 @@ func c20RunCase(t *testing.T, c *c20Case, base string) c20Out {
 						fi, err := e.Info()
 						if err == nil && (iv.WaitTmpSize < 0 || fi.Size() == iv.WaitTmpSize) {
 							// the child's rename is delayed by strace: let write and close finish first
-							time.Sleep(60 * time.Millisecond)
+							time.Sleep(time.Duration(iv.DelayMs) * time.Millisecond)
 							_ = os.RemoveAll(iv.Dir)
 							if iv.Action == "rmdir_mkdir" {
 								_ = os.MkdirAll(iv.Dir, 0o755)
